@@ -101,6 +101,9 @@ func (x *Exec) evalSpecIdent(st *State, id *ast.Ident) *Value {
 	if v, ok := st.names[id.Name]; ok {
 		return v
 	}
+	if gt, ok := x.eng.cf.Ghosts[id.Name]; ok {
+		return x.ghostGlobal(st, id.Name, gt)
+	}
 	if d, ok := x.eng.cf.UFs[id.Name]; ok && len(d.Params) == 0 {
 		t := x.eng.typeByName(d.Ret)
 		return x.ufApp(st, d, t, nil)
@@ -587,11 +590,12 @@ func (x *Exec) specAssign(st, pre *State, lhs ast.Expr, rhs *Value, cond *Term) 
 	case *ast.Ident:
 		// ghost global
 		key := "ghost." + l.Name
-		cur, ok := st.globals[key]
-		if !ok {
+		gt, declared := x.eng.cf.Ghosts[l.Name]
+		if !declared {
 			x.fail("effect: unknown ghost global %s", l.Name)
 			return
 		}
+		cur := x.ghostGlobal(st, l.Name, gt)
 		nv := x.coerce(st, rhs, cur.T)
 		if cond != nil {
 			nv = x.iteV(cond, nv, cur)
@@ -659,4 +663,28 @@ func (x *Exec) specLib(st *State, name string, e *ast.CallExpr) (*Value, bool) {
 		_ = is
 	}
 	return nil, false
+}
+
+// ghostGlobal returns (creating on first use) the value of a ghost global.
+func (x *Exec) ghostGlobal(st *State, name, typ string) *Value {
+	key := "ghost." + name
+	if v, ok := st.globals[key]; ok {
+		return v
+	}
+	t := x.eng.typeByName(typ)
+	v := &Value{T: t, L: map[string]*Term{}}
+	for _, l := range x.leavesOf(t) {
+		v.L[l.path] = x.b.Var(join("G0.ghost."+name, l.path), l.sort)
+	}
+	st.globals[key] = v
+	for _, os := range x.oldStack {
+		if _, ok := os.globals[key]; !ok {
+			os.globals[key] = v
+		}
+	}
+	return v
+}
+
+func (x *Exec) setGhostGlobal(st *State, name string, v *Value) {
+	st.globals["ghost."+name] = v
 }
